@@ -154,10 +154,10 @@ func build(bd string, race bool) string {
 		fatal("overlaygen: %v\n%s", err, out)
 	}
 	bin := filepath.Join(bd, "worker")
-	args := []string{"build", "-overlay", filepath.Join(ov, "overlay.json"), "-tags", "verif", "-o", bin}
+	args := []string{"build", "-overlay", filepath.Join(ov, "overlay.json"), "-tags", "verif,verifoverlay", "-o", bin}
 	if race {
 		bin += "-race"
-		args = []string{"build", "-race", "-overlay", filepath.Join(ov, "overlay.json"), "-tags", "verif", "-o", bin}
+		args = []string{"build", "-race", "-overlay", filepath.Join(ov, "overlay.json"), "-tags", "verif,verifoverlay", "-o", bin}
 	}
 	args = append(args, "./worker")
 	if out, err := run(root, goEnv(), "go", args...); err != nil {
